@@ -1,0 +1,13 @@
+//go:build verif
+
+package os
+
+// VerifExit, when set by a simulation harness, is called by Exit instead of terminating
+// the process (it is expected not to return). Only compiled with the build tag "verif".
+var VerifExit func(s string)
+
+func verifExit(s string) {
+	if VerifExit != nil {
+		VerifExit(s)
+	}
+}
